@@ -775,7 +775,8 @@ static void judge_request(const e2e_t *E, int j, int expect, const char *cls, co
 		if (expect == X_MUST_NETERR) vf_fail("completed-without-response", "%s request %d completed although its response was never delivered completely", what, j);
 	} else if (r->state == KSI_ASYNC_STATE_ERROR) {
 		vf_outcome("%s:%s:err:%x", cls, what, r->err);
-		if (expect == X_MUST_OK) vf_fail("request-failed", "%s request %d: nothing failed on its path (its whole response was delivered) but it ended with error 0x%x", what, j, r->err);
+		if (expect == X_MUST_OK && strcmp(what, "later") == 0) vf_fail("later-request-failed", "later request %d (submitted after the affected ones were handed back) must travel on a fresh connection and complete, but ended with error 0x%x", j, r->err);
+		else if (expect == X_MUST_OK) vf_fail("request-failed", "%s request %d: nothing failed on its path (its whole response was delivered) but it ended with error 0x%x", what, j, r->err);
 		else if (!is_net_error(r->err)) vf_fail("not-a-network-error", "%s request %d ended with error 0x%x, which is not a network error", what, j, r->err);
 	} else {
 		vf_fail("odd-state", "%s request %d handed back in state %d", what, j, r->state);
@@ -844,24 +845,32 @@ static void scenario(const scen_t *sc) {
 	count_env(E.runs);
 }
 
-/* sizes learnt from one default run (deterministic): request size R, response size P */
-static size_t R_SZ, P_SZ;
+/* sizes learnt from one default run (deterministic): request end offsets RO[k] (k requests back to back), response size P */
+static size_t RO[MAXREQ + 1], P_SZ;
+#define NCAL 5
 static void calibrate(void) {
 	e2e_t E;
 	int j;
 	env_install();
 	e2e_open(&E);
-	SV.expect = 3;
-	for (j = 0; j < 3; j++) e2e_add(&E);
-	e2e_pump(&E, 3, 20, 1);
-	for (j = 0; j < 3; j++) {
+	SV.expect = NCAL;
+	for (j = 0; j < NCAL; j++) e2e_add(&E);
+	e2e_pump(&E, NCAL, 20, 1);
+	RO[0] = 0;
+	for (j = 0; j < NCAL; j++) {
 		if (!E.r[j].returned || E.r[j].state != KSI_ASYNC_STATE_RESPONSE_RECEIVED || !E.r[j].own) vf_harness_error("calibration: default schedule does not complete request %d (state %d err 0x%x)", j, E.r[j].state, E.r[j].err);
-		if (REQ[j].n != REQ[0].n) vf_harness_error("calibration: request sizes differ");
+		RO[j + 1] = RO[j] + REQ[j].n;
+		if (SV.resp_end[j] != (size_t)(j + 1) * SV.resp_end[0]) vf_harness_error("calibration: response sizes differ");
 	}
-	R_SZ = REQ[0].n;
 	P_SZ = SV.resp_end[0];
-	if (SV.resp_end[2] != 3 * P_SZ || sn_nconn != 1 || sn_conns[0].out.n != 3 * R_SZ) vf_harness_error("calibration: unexpected sizes");
+	if (sn_nconn != 1 || sn_conns[0].out.n != RO[NCAL]) vf_harness_error("calibration: unexpected sizes");
 	e2e_close(&E);
+}
+static int reqs_before(size_t off) { int k = 0; while (k < NCAL && RO[k + 1] <= off) k++; return k; }
+static int req_boundary_near(size_t x, int n, size_t d) {
+	int i;
+	for (i = 0; i <= n; i++) { size_t s = RO[i]; if ((x >= s && x - s <= d) || (x < s && s - x <= d)) return 1; }
+	return 0;
 }
 
 static void e2e_rx_case(int n, size_t a, size_t b, int wb) {
@@ -910,13 +919,13 @@ static void part_e2e(void) {
 		}
 	}
 	for (n = 1; n <= 3; n++) for (hold = 0; hold < 2; hold++) for (wb = 0; wb < 3; wb++) {
-		size_t len = (size_t)n * R_SZ, stride = VF_THOROUGH ? 1 : (n == 1 ? 3 : 11);
+		size_t len = RO[n], stride = VF_THOROUGH ? 1 : (n == 1 ? 3 : 11);
 		if (n == 1 && hold) continue;
 		for (a = 0; a < len; a++) { if (a == 0 && !wb) continue; e2e_tx_case(n, hold, a, 0, wb); }
 		if (wb == 2) continue;
 		for (a = 1; a < len; a++) for (b = a + 1; b < len; b++) {
-			int keep = (boundary_near(a, R_SZ, n, 3) && boundary_near(b, R_SZ, n, 3)) || (a % stride == 0 && b % stride == 0) || (n == 1 && VF_THOROUGH);
-			if (n == 3 && VF_THOROUGH && !(boundary_near(a, R_SZ, n, 3) || boundary_near(b, R_SZ, n, 3)) && !(a % 3 == 0 && b % 3 == 0)) keep = 0;
+			int keep = (req_boundary_near(a, n, 3) && req_boundary_near(b, n, 3)) || (a % stride == 0 && b % stride == 0) || (n == 1 && VF_THOROUGH);
+			if (n == 3 && VF_THOROUGH && !(req_boundary_near(a, n, 3) || req_boundary_near(b, n, 3)) && !(a % 3 == 0 && b % 3 == 0)) keep = 0;
 			if (keep) e2e_tx_case(n, hold, a, b, wb);
 		}
 	}
@@ -936,16 +945,16 @@ static void part_flt(void) {
 		if (!vf_case_begin("flt:rx:%s:n%d:off%zu:arm%d", ANAME[RXACT[ai]], n1, off, arm)) continue;
 		env_install();
 		snprintf(cls, sizeof cls, "flt:rx:%s", ANAME[RXACT[ai]]); sc.cls = cls;
-		ev_add(&CS[0].rx, off, RXACT[ai], arm ? (size_t)n1 * R_SZ : 0);
+		ev_add(&CS[0].rx, off, RXACT[ai], arm ? RO[n1] : 0);
 		scenario(&sc);
 		vf_case_end(1);
 	}
 	/* faults on the send side at every byte offset of the request stream */
-	for (ai = 0; ai < 4; ai++) for (n1 = 1; n1 <= 2; n1++) for (hold = 0; hold < 2; hold++) for (off = 0; off < (size_t)n1 * R_SZ; off++) {
+	for (ai = 0; ai < 4; ai++) for (n1 = 1; n1 <= 2; n1++) for (hold = 0; hold < 2; hold++) for (off = 0; off < RO[n1]; off++) {
 		scen_t sc = {n1, 2, hold, 1, 50, NULL};
 		char cls[48];
 		if (n1 == 1 && hold) continue;
-		if (!VF_THOROUGH && n1 == 2 && !(off % 3 == 0 || boundary_near(off, R_SZ, 2, 4))) continue;
+		if (!VF_THOROUGH && n1 == 2 && !(off % 3 == 0 || req_boundary_near(off, 2, 4))) continue;
 		if (!vf_case_begin("flt:tx:%s:n%d:hold%d:off%zu", ANAME[TXACT[ai]], n1, hold, off)) continue;
 		env_install();
 		snprintf(cls, sizeof cls, "flt:tx:%s", ANAME[TXACT[ai]]); sc.cls = cls;
@@ -954,16 +963,16 @@ static void part_flt(void) {
 		vf_case_end(1);
 	}
 	/* peer close / reset while a request is half written (the writer was told would-block at `off`) */
-	for (ai = 0; ai < 2; ai++) for (n1 = 1; n1 <= 2; n1++) for (off = 1; off < (size_t)n1 * R_SZ; off++) {
+	for (ai = 0; ai < 2; ai++) for (n1 = 1; n1 <= 2; n1++) for (off = 1; off < RO[n1]; off++) {
 		scen_t sc = {n1, 2, 0, 1, 50, NULL};
 		char cls[48];
-		if (off % R_SZ == 0) continue;
-		if (!VF_THOROUGH && !(off % 4 == 1 || boundary_near(off, R_SZ, 2, 3))) continue;
+		if (off == RO[1]) continue;
+		if (!VF_THOROUGH && !(off % 4 == 1 || req_boundary_near(off, 2, 3))) continue;
 		if (!vf_case_begin("flt:mid:%s:n%d:off%zu", ANAME[RXACT[ai]], n1, off)) continue;
 		env_install();
 		snprintf(cls, sizeof cls, "flt:mid:%s", ANAME[RXACT[ai]]); sc.cls = cls;
 		ev_add(&CS[0].tx, off, A_WB, 0);
-		ev_add(&CS[0].rx, (off / R_SZ) * P_SZ, RXACT[ai], off);
+		ev_add(&CS[0].rx, (size_t)reqs_before(off) * P_SZ, RXACT[ai], off);
 		scenario(&sc);
 		vf_case_end(1);
 	}
